@@ -143,6 +143,8 @@ impl ErrKind {
 /// Typed payload of injected faults.
 #[derive(Debug)]
 pub struct Boom(pub u64);
+/// payload ids reported for a user error whose value is an `IVPStatus<IVPError>` (+1 Done, +2 Redo, +3 Failure)
+pub const STATUS_PAYLOAD: u64 = 1 << 60;
 impl std::fmt::Display for Boom {
     fn fmt(&self, f: &mut std::fmt::Formatter) -> std::fmt::Result {
         write!(f, "boom at call {}", self.0)
@@ -157,6 +159,14 @@ pub fn classify(e: IVPError) -> ErrKind {
                 ErrKind::Budget
             } else if let Some(bm) = b.downcast_ref::<Boom>() {
                 ErrKind::User(b.to_string(), Some(bm.0))
+            } else if let Some(st) = b.downcast_ref::<bacon_sci::ivp::IVPStatus<IVPError>>() {
+                // the fault payload was itself a solver status (opts.fail_payload): reported as the user's error, unchanged
+                let v = match st {
+                    bacon_sci::ivp::IVPStatus::Done => 1,
+                    bacon_sci::ivp::IVPStatus::Redo => 2,
+                    bacon_sci::ivp::IVPStatus::Failure(_) => 3,
+                };
+                ErrKind::User(b.to_string(), Some(STATUS_PAYLOAD + v))
             } else {
                 ErrKind::User(b.to_string(), None)
             }
@@ -248,11 +258,15 @@ pub struct Opts {
     pub order: u8,
     /// also call with_minimum_dt on Euler (its step is the mean of the two bounds, whatever the order of the calls)
     pub euler_min: bool,
+    /// what the failing derivative call returns: 0 Boom(k); 1..3 a boxed solver status
+    /// `IVPStatus<IVPError>` (Done, Redo, Failure(MinimumTimeDeltaExceeded)) - the value a derivative
+    /// that drives a nested stepper forwards with `?`. It is the user's error all the same.
+    pub fail_payload: u8,
 }
 
 impl Default for Opts {
     fn default() -> Self {
-        Opts { budget: 5_000_000, fail_at: None, max_items: 200_000, extra_next: 0, collect_vec: false, mode: DimMode::Dynamic, collect_after: false, order: 0, euler_min: false }
+        Opts { budget: 5_000_000, fail_at: None, max_items: 200_000, extra_next: 0, collect_vec: false, mode: DimMode::Dynamic, collect_after: false, order: 0, euler_min: false, fail_payload: 0 }
     }
 }
 
@@ -269,7 +283,7 @@ pub trait Rhs<N>: Sync {
 
 type Boxed<'a, N, D> = Box<dyn FnMut(f64, &[N], &mut ()) -> Result<BVector<N, D>, UserError> + 'a>;
 
-fn make_deriv<'a, N, D>(rhs: &'a dyn Rhs<N>, fail_at: Option<u64>, calls: &'a Cell<u64>) -> Boxed<'a, N, D>
+fn make_deriv<'a, N, D>(rhs: &'a dyn Rhs<N>, fail_at: Option<u64>, fail_payload: u8, calls: &'a Cell<u64>) -> Boxed<'a, N, D>
 where
     N: ComplexField<RealField = f64> + Copy,
     D: Dimension,
@@ -284,7 +298,12 @@ where
         }
         if let Some(k) = fail_at {
             if calls.get() == k {
-                return Err(Box::new(Boom(k)) as UserError);
+                return Err(match fail_payload {
+                    1 => Box::new(bacon_sci::ivp::IVPStatus::<IVPError>::Done) as UserError,
+                    2 => Box::new(bacon_sci::ivp::IVPStatus::<IVPError>::Redo) as UserError,
+                    3 => Box::new(bacon_sci::ivp::IVPStatus::<IVPError>::Failure(IVPError::MinimumTimeDeltaExceeded)) as UserError,
+                    _ => Box::new(Boom(k)) as UserError,
+                });
             }
         }
         rhs.eval(t, y, &mut buf);
@@ -432,7 +451,7 @@ where
 macro_rules! by_solver {
     ($solver:expr, $N:ty, $D:ty, $n:expr, $cfg:expr, $y0:expr, $rhs:expr, $opts:expr) => {{
         let calls = Cell::new(0u64);
-        let deriv: Boxed<$N, $D> = make_deriv::<$N, $D>($rhs, $opts.fail_at, &calls);
+        let deriv: Boxed<$N, $D> = make_deriv::<$N, $D>($rhs, $opts.fail_at, $opts.fail_payload, &calls);
         match $solver {
             Solver::Euler => go::<$N, $D, Euler<$N, $D, (), Boxed<$N, $D>>>($solver, $n, $cfg, $y0, deriv, &calls, $opts),
             Solver::RK45 => go::<$N, $D, RungeKutta45<$N, $D, (), Boxed<$N, $D>>>($solver, $n, $cfg, $y0, deriv, &calls, $opts),
